@@ -157,5 +157,6 @@ type BatchResult struct {
 	Samples               []json.RawMessage `json:"samples"`
 	Violations            []string          `json:"violations"` // replay file paths
 	WallS                 float64           `json:"wall_s"`
+	SystematicTotal       uint64            `json:"systematic_total,omitempty"` // size of the systematic corpus of this property and tier (same in every worker)
 	LogHashXor            uint64            `json:"log_hash_xor"` // xor of all runs' event-log hashes (determinism self-test)
 }
